@@ -31,7 +31,9 @@ def run_property(prop: str, tier: str = "quick", seed: int = 0, overlay=None, wr
         sys.stdout.flush()
         return rc
     tried = {"auto": (rc, first)}
-    for mode in ("attrs", "none"):
+    fpairs = list(LAST.get("function_pairs") or [])
+    # ... and, when several functions were matched, all pairs but one (the one that was really a split)
+    for mode in ["attrs", "none"] + ([f"without:{n}" for n in fpairs] if 2 <= len(fpairs) <= 8 else []):
         buf = io.StringIO()
         with contextlib.redirect_stdout(buf):
             r = _run_property(prop, tier, seed, overlay, False, root, mode)
@@ -62,6 +64,8 @@ def _run_property(prop, tier, seed, overlay, write, root, rename) -> int:
         t0 = time.time()
         prog = Program(root=root, overlay=overlay, rename=rename)
         LAST["renamed"] = dict(prog.renamed)
+        if rename == "auto":
+            LAST["function_pairs"] = list((prog.rename_diag or {}).get("function_pairs", []))
         ctx = Ctx(prop, prog, tier=tier, seed=seed, write=write, t0=t0)
         mod.run(ctx)
         if tier == "thorough" and overlay is None:
